@@ -108,11 +108,11 @@ class FrontEndSpec(Spec):
                 for style in STYLES:
                     for opt in OPTIONS:
                         n += 1
-                        exp = {'f%d:0' % j: outcomes.outcome(kd, opt) for j, kd in enumerate(kinds)}
+                        exp = {outcomes.fname(j) + ':0': outcomes.outcome(kd, opt) for j, kd in enumerate(kinds)}
                         exp_p = {k: ('skipped' if v == 'disabled' else v) for k, v in exp.items()}
                         exp_n = {k: v for k, v in exp.items() if v != 'disabled'}
                         anyfail = any(v == 'failed' for v in exp.values())
-                        if len(set(exp.values())) >= 2 or (opt and exp != {'f%d:0' % j: outcomes.outcome(kd) for j, kd in enumerate(kinds)}):
+                        if len(set(exp.values())) >= 2 or (opt and exp != {outcomes.fname(j) + ':0': outcomes.outcome(kd) for j, kd in enumerate(kinds)}):
                             nontriv += 1
                         tag = '%s/%s' % (style, opt)
                         try:
